@@ -142,6 +142,7 @@ func (x *ChanPubSub[C, V]) SubscribeContext(ctx context.Context) iter.Seq[V] {
 			default:
 			}
 
+			verifAt("cps.iter.select", x, 0)
 			select {
 			case <-ctx.Done():
 				return
@@ -176,10 +177,12 @@ func (x *ChanPubSub[C, V]) Send(value V) (sent int) {
 	}
 
 	// for sanity of the ping-pong communication pattern
+	verifAt("cps.send.sendmu.lock", x, 0)
 	x.sendMu.Lock()
 	defer x.sendMu.Unlock()
 
 	// N.B. released after sending (after pings, before waiting for pongs)
+	verifAt("cps.send.sendingmu.lock", x, 0)
 	x.sendingMu.Lock()
 	var skipSendingUnlock bool
 	defer func() {
@@ -192,6 +195,7 @@ func (x *ChanPubSub[C, V]) Send(value V) (sent int) {
 
 	// we need to know the subscribers, so we can add to x.ping
 	// synchronisation is important here, so INCREMENTS are mutually exclusive
+	verifAt("cps.send.load", x, 0)
 	subscribers := int(x.subscribers.Load())
 	if subscribers == 0 {
 		return 0 // no subscribers (slow path)
@@ -219,6 +223,7 @@ func (x *ChanPubSub[C, V]) Send(value V) (sent int) {
 
 	// pong! (await appropriate number of calls to Wait)
 	if sent != 0 {
+		verifAt("cps.send.pong.lock", x, sent)
 		x.pongC.L.Lock()
 		defer x.pongC.L.Unlock()
 
@@ -229,6 +234,7 @@ func (x *ChanPubSub[C, V]) Send(value V) (sent int) {
 
 		// wait for our pongs to be consumed
 		for x.pongN != 0 {
+			verifAt("cps.send.pong.wait", x, 0)
 			x.pongC.Wait()
 			x.checkBroken() // ALWAYS checkBroken after a wait
 		}
@@ -291,12 +297,15 @@ func (x *ChanPubSub[C, V]) Add(delta int) (subscribers int) {
 		// x.ping is guarded by both x.sendMu and x.sendingMu.
 		//
 		// ... rather complex, yes.
+		verifAt("cps.add.tryrlock", x, delta)
 		ok := x.sendingMu.TryRLock()
 		// N.B. this loop is to handle state transition (send in progress)
 		for !ok && x.ping.Add(0) == 0 {
+			verifAt("cps.add.spin", x, 0)
 			x.checkBroken() // attempts to mitigate deadlock risk on misuse...
 			ok = x.sendingMu.TryRLock()
 		}
+		verifAt("cps.add.dec", x, delta)
 		subscribers = x.addSubscribers(delta)
 		if ok {
 			x.sendingMu.RUnlock() // unlock, before possible panics
@@ -318,6 +327,7 @@ func (x *ChanPubSub[C, V]) Add(delta int) (subscribers int) {
 	default:
 		// Subscribe case. Mutually exclusive with sending, but able to run
 		// concurrently with other attempts to subscribe.
+		verifAt("cps.add.rlock", x, delta)
 		x.sendingMu.RLock()
 		defer x.sendingMu.RUnlock()
 		subscribers = x.addSubscribers(delta)
@@ -334,6 +344,7 @@ func (x *ChanPubSub[C, V]) Add(delta int) (subscribers int) {
 func (x *ChanPubSub[C, V]) Wait() {
 	x.checkUsedFactoryFunction()
 
+	verifAt("cps.wait.lock", x, 0)
 	x.pongC.L.Lock()
 	defer x.pongC.L.Unlock()
 
@@ -341,6 +352,7 @@ func (x *ChanPubSub[C, V]) Wait() {
 
 	// wait for a pong to consume
 	for x.pongN == 0 {
+		verifAt("cps.wait.wait", x, 0)
 		x.pongC.Wait()
 		x.checkBroken() // ALWAYS checkBroken after a wait
 	}
